@@ -1,5 +1,6 @@
 import Robust.Irc.Dump
 import Robust.Irc.Inv
+import Robust.Api.Model
 import Driver.Util
 /-! driver component `irc`: `R` reset, `E …` entry, `D` dump, `W` walk -/
 namespace Driver.IrcDrv
@@ -108,6 +109,12 @@ def step (d : DState) (line : String) : DState × String :=
         | .ok (st, outs) => (⟨st, false, tainted⟩, canonOut d.st.serverName outs)
         | .panic site => (⟨d.st, true, tainted⟩, "panic " ++ site)
         | .declined why => (⟨d.st, true, tainted⟩, "declined " ++ why)
+  | ["G", id, reply] =>
+    if d.broken then (d, "skipped") else
+    match id.toNat?, reply.toNat? with
+    | some id, some reply => (d, match Robust.Api.getSession d.st ⟨id, reply⟩ with
+      | .ok _ => "found" | .error .noSuchSession => "nosuch" | .error .notYetSeen => "notyet" | .error _ => "error")
+    | _, _ => (d, "bad-op")
   | ["D"] => if d.broken then (d, "skipped") else (d, dumpState d.st)
   | ["W"] => if d.broken then (d, "skipped") else (d, (if invB d.st then "walk ok" else "walk bad " ++ invWhy d.st) ++ (if d.tainted then " tainted" else ""))
   | _ => (d, "bad-op")
